@@ -353,40 +353,53 @@ def penaltySpec (p : Params) (n idx : Nat) (brokeAtDisc : Bool) : Int :=
   p.interLine + (if idx = 0 then p.club else 0) + (if idx + 2 = n then p.widow else 0) +
     (if brokeAtDisc then p.broken else 0)
 
-/-- The whole executable verdict on real output lines `(flat list, width, indent, penalty)`:
-used by the driver for the I-vs-S comparison. Returns a list of violated clauses (empty = ok). -/
-def specVerdict (p : Params) (l : List Item) (bs : List Nat)
-    (lines : List (List Item × Int × Int × Option Int)) : List String :=
+/-- A real line as the harness reports it: `(flat list, width, indent, penalty after it)`. -/
+abbrev RLine := List Item × Int × Int × Option Int
+
+/-- Width and indent of line `i` are the requested ones. -/
+def geoAt (p : Params) (lines : List RLine) (i : Nat) : Bool :=
+  match lines[i]? with
+  | some (_, w, ind, _) =>
+    (match lineWidth p.widths i with | .ok w' => w' == w | .error _ => false) &&
+      ind == lineIndent p.indents i
+  | none => false
+
+def isDiscDropped : Option Dropped → Bool
+  | some ⟨.disc _ _ _, _⟩ => true
+  | _ => false
+
+/-- §890 for line `i` of `n`. -/
+def penAt (p : Params) (ds : List Dropped) (n : Nat) (lines : List RLine) (i : Nat) : Bool :=
+  match lines[i]? with
+  | some (_, _, _, pen) =>
+    if i + 1 = n then pen == none
+    else
+      let want := penaltySpec p n i (isDiscDropped ds[i]?)
+      pen == (if want = 0 then none else some want)
+  | none => false
+
+/-- Line `i > 0` does not start with discardable material. -/
+def cleanAt (p : Params) (ds : List Dropped) (lines : List RLine) (i : Nat) : Bool :=
+  if i = 0 then true
+  else
+    match lines[i]?, ds[i - 1]? with
+    | some (flat, _, _, _), some d =>
+      (match lineBody p (some d.item) ((ds[i]?).map (·.item)) flat with
+       | some body => startsClean (postOf (some d.item)) body
+       | none => true)   -- shape violations are reported by `conservation`
+    | _, _ => true
+
+/-- The whole executable verdict on real output lines: used by the driver for the I-vs-S
+comparison. Returns the list of violated clauses (empty = ok). -/
+def specVerdict (p : Params) (l : List Item) (bs : List Nat) (lines : List RLine) : List String :=
   let ds := droppedOf l bs
-  let flats := lines.map (·.1)
   let n := bs.length
-  let cons := if reassemble p flats ds = some l then [] else ["conservation"]
-  let count := if lines.length = n then [] else ["line-count"]
   let idxs := List.range lines.length
-  let geo := if idxs.all (fun i =>
-      match lines[i]? with
-      | some (_, w, ind, _) =>
-        (match lineWidth p.widths i with | .ok w' => w' == w | .error _ => false) &&
-          ind == lineIndent p.indents i
-      | none => false) then [] else ["geometry"]
-  let pens := if idxs.all (fun i =>
-      match lines[i]? with
-      | some (_, _, _, pen) =>
-        if i + 1 = n then pen == none
-        else
-          let brokeAtDisc := match ds[i]? with | some ⟨.disc _ _ _, _⟩ => true | _ => false
-          let want := penaltySpec p n i brokeAtDisc
-          pen == (if want = 0 then none else some want)
-      | none => false) then [] else ["penalty"]
-  let clean := if idxs.all (fun i =>
-      if i = 0 then true else
-      match lines[i]?, ds[i - 1]? with
-      | some (flat, _, _, _), some d =>
-        (match lineBody p (some d.item) ((ds[i]?).map (·.item)) flat with
-         | some body => startsClean (postOf (some d.item)) body
-         | none => true)   -- shape violations are reported by `conservation`
-      | _, _ => true) then [] else ["leading-discardable"]
-  cons ++ count ++ geo ++ pens ++ clean
+  (if reassemble p (lines.map (·.1)) ds = some l then [] else ["conservation"]) ++
+  (if lines.length = n then [] else ["line-count"]) ++
+  (if idxs.all (geoAt p lines) then [] else ["geometry"]) ++
+  (if idxs.all (penAt p ds n lines) then [] else ["penalty"]) ++
+  (if idxs.all (cleanAt p ds lines) then [] else ["leading-discardable"])
 
 /-! ## Text → horizontal list: the space factor and the inter-word glue -/
 
